@@ -55,7 +55,7 @@ func (g *vmGen) declare(name string, t *gen.Type, ln int) {
 }
 
 func (g *vmGen) str() string {
-	pool := []string{"", "a", "ab", "xyz", "hello", "Q"}
+	pool := []string{"", "a", "ab", "xyz", "hello", "Q", "0", "1", "3", "true", "2.5"}
 	if g.nonASCII {
 		pool = append(pool, "é", "aé🌍")
 	}
